@@ -360,8 +360,10 @@ def _prepare_subset(prop, tier, seed, only, context):
         if index >= nx + _ST['n_random'] + _ST['n_pairs'] + _ST['n_xfile']:
             continue
         if index >= nx + _ST['n_random'] + _ST['n_pairs']:
-            dn = _ST['dwarf_names']
-            first.add(dn[(index - nx - _ST['n_random'] - _ST['n_pairs']) % len(dn)])   # the partner is found by gen_spec below
+            for n in names:
+                _file_info(n)
+            _ST['seed'] = seed
+            first.update(_xfile_pairs()[index - nx - _ST['n_random'] - _ST['n_pairs']])
         elif index >= nx + _ST['n_random']:
             first.add(names[(index - nx - _ST['n_random']) % len(names)])
         else:
@@ -450,8 +452,10 @@ def prepare(prop, tier, seed, only=None, context=None):
     _ST['n_pairs'] = (6000 if prop == 'C10' else 3000) if tier == 'quick' else (120000 if prop == 'C10' else 30000)
     _ST['dwarf_names'] = [n for n in _ST['names'] if any(_kind(o) in ('lineprog_seq', 'die_iter') for o in _ST['files'][n]['pool'])]
     _ST['n_xfile'] = 0
-    if prop == 'C10' and len(_ST['dwarf_names']) >= 2:
-        _ST['n_xfile'] = len(_ST['dwarf_names']) * (4 if tier == 'quick' else 40)
+    _ST['seed'] = seed
+    _ST.pop('xfile_pairs', None)
+    if prop == 'C10' and len(_ST['names']) >= 2:
+        _ST['n_xfile'] = len(_xfile_pairs())
     _ST['n_lutgen'] = (4000 if tier == 'quick' else 200000) if prop == 'C13' else 0
     if not _ST['names']:
         _ST['n_random'] = 0
@@ -465,6 +469,52 @@ def n_runs(prop, tier):
 
 
 # ---------------------------------------------------------------- a simulation run
+_WHOLE = ('lineprog_seq', 'die_iter', 'cfi_entries', 'cfi_decoded_seq', 'loc_iter', 'rng_iter', 'aranges_entries', 'pub_items', 'tu_iter',
+          'cu_iter', 'dyn_iter', 'sec_iter', 'seg_iter', 'sym_iter', 'notes_iter', 'rel_iter', 'dynseg_sym_iter', 'ver_iter', 'attrs_walk',
+          'stabs_iter')
+
+
+def _is_whole_table_op(o):
+    """A plain op that walks a whole table to its end (no type filter, no take limit): what the two-file runs execute."""
+    if o[0] not in _WHOLE:
+        return False
+    if o[0] in ('sec_iter', 'seg_iter'):
+        return o[1] is None and o[2] is None
+    if o[0] == 'dyn_iter':
+        return o[2] is None and o[3] is None
+    if o[0] == 'ver_iter':
+        return o[2] == 'eager' and o[3] is None
+    if o[0] == 'attrs_walk':
+        return o[2] == 'nested' and o[3] is None
+    if o[0] in ('lineprog_seq', 'cfi_entries', 'cfi_decoded_seq', 'aranges_entries'):
+        return True
+    return o[-1] is None
+
+
+def _xfile_pairs():
+    """(B, A) pairs of the two-file runs: A is opened and decoded first, then B must answer as if alone.  Partners share
+    class, byte order and - where the corpus allows - e_machine (process-wide tables are keyed by such parameters):
+    all same-machine partners when there are at most 8 of them, a seeded 5 otherwise."""
+    ps = _ST.get('xfile_pairs')
+    if ps is not None:
+        return ps
+    names = _ST['names']
+    hdr = {n: _ST['files'][n]['data'][:20] for n in names}
+    r = substream(h64(_ST.get('seed', 0), 'xfile-pairs', _ST.get('tier', '')), 'p')
+    ps = []
+    for b in names:
+        same_m = [a for a in names if a != b and hdr[a][4:6] == hdr[b][4:6] and hdr[a][18:20] == hdr[b][18:20]]
+        if len(same_m) > 8:
+            same_m = sorted(r.sample(same_m, 5))
+        if not same_m:
+            same_c = [a for a in names if a != b and hdr[a][4:6] == hdr[b][4:6]]
+            same_m = sorted(r.sample(same_c, min(2, len(same_c))))
+        for a in same_m:
+            ps.append((b, a))
+    _ST['xfile_pairs'] = ps
+    return ps
+
+
 def gen_spec(prop, tier, seed, index):
     nx = len(_ST['prep_cross'])
     if index < nx:
@@ -479,17 +529,14 @@ def gen_spec(prop, tier, seed, index):
         # struct-cache runs: everything of file A is decoded, then everything of file B, in one process; B must answer as
         # if it were alone (process-wide caches keyed by byte order / format / address size / version are shared)
         k = index - nx - _ST['n_random'] - _ST.get('n_pairs', 0)
-        dn = _ST['dwarf_names']
-        b = dn[k % len(dn)]
-        same = [n for n in dn if n != b and _ST['files'][n]['data'][4:6] == _ST['files'][b]['data'][4:6]] or [n for n in dn if n != b]
-        a = r.choice(same)
+        b, a = _xfile_pairs()[k]
         tasks = []
         for n in (a, b):
             if 'pool' not in _ST['files'][n]:
                 raise NeedFile(n)
-            wide = [o for o in _ST['files'][n]['pool'] if _kind(o) in ('lineprog_seq', 'die_iter', 'cfi_entries', 'cfi_decoded_seq', 'loc_iter', 'rng_iter', 'aranges_entries', 'pub_items', 'tu_iter', 'cu_iter', 'die_top', 'session:lineprog', 'session:cu')]
+            wide = [o for o in _ST['files'][n]['pool'] if _is_whole_table_op(o)]
             r.shuffle(wide)
-            tasks.append(wide[:6])
+            tasks.append(wide[:16])
         cfg = dict(p_displace=0, p_abandon=0, burst=1, policy='sequential')
         return dict(engine=ENGINE, kind='sim', file=a, files=[a, b], task_files=[0, 1], tasks=tasks, cfg=cfg, seed=rs, schedule=None,
                     focus=_focus(prop))
